@@ -1,10 +1,10 @@
 """C20 -- see DESIGN.md; obligations + oracle sweep."""
 from .. import common as C, generic as G
 
-TRUSTED = ['Coq 8.16.1 kernel + vm_compute', 'translator/*.py', 'oracle harness harness/oracles/C20.py']
-PERRUN = []
-GEN = ('Gen_util',)
-LEVEL = 'other'
+TRUSTED = ['Coq 8.16.1 kernel + vm_compute', 'Flocq binary64 with a single NaN (payloads not modelled)', 'translator/tables.py: field assignments of to_dict/from_dict/__init__ and the branches of replace_nan_with_none as source text', 'ndarray.tolist / np.array(dtype=float) (None -> NaN) / float() / int() / json.dumps+loads / pandas DataFrame.to_dict+from_dict conversions (exercised by the sweep, not modelled beyond the JSON value type)', 'str(): __str__ reads only the stored fields (validated)']
+PERRUN = ['C20.v']
+GEN = ('Gen_tables',)
+LEVEL = 'proof'
 EXPLANATION = 'obligations: translation of the anchored functions + theorems listed in coverage.theorems; the remaining clauses are validated by the oracle sweep only'
 
 
